@@ -8,6 +8,7 @@ mod c07;
 mod c09;
 mod c18;
 mod staking;
+mod chain;
 
 pub fn run(ctx: &Ctx) -> Option<Report> {
     Some(match ctx.prop.as_str() {
@@ -16,6 +17,7 @@ pub fn run(ctx: &Ctx) -> Option<Report> {
         "C09" => c09::run(ctx),
         "C18" => c18::run(ctx),
         "C14" | "C15" | "C16" => staking::run(ctx),
+        "C01" | "C02" | "C03" | "C04" | "C05" | "C08" | "C10" | "C11" | "C12" | "C13" => chain::run(ctx),
         _ => return None,
     })
 }
@@ -28,6 +30,7 @@ pub fn replay(ctx: &Ctx, doc: &Value) -> Option<Report> {
         "C09" => c09::replay(ctx, w),
         "C18" => c18::replay(ctx, w),
         "C14" | "C15" | "C16" => staking::replay(ctx, w),
+        "C01" | "C02" | "C03" | "C04" | "C05" | "C08" | "C10" | "C11" | "C12" | "C13" => chain::replay(ctx, w),
         _ => return None,
     })
 }
